@@ -18,4 +18,14 @@ CoreReserved == Keywords \cup {
    <<102,115,101,116>>, <<115,103,101,116>>, <<115,115,101,116>>, <<109,101,109,99,112,121>>, 
    <<109,101,109,115,101,116>> }
 IsIdent(w) == Len(w) >= 1 /\ w[1] \in Alpha /\ \A k \in 1..Len(w) : w[k] \in AlNum
+\* --keep-names-from-file: a text file, one name per line. The identifier x is *listed* in file f (bytes) when some line
+\* of f consists of x, possibly surrounded by blanks (space, tab, CR, VT, FF). Nothing else about the file's format
+\* is assumed (comment and empty lines list nothing, since no identifier equals them).
+KBlank == {32, 9, 13, 11, 12}
+Listed(x, f) ==
+  /\ Len(x) >= 1
+  /\ \E a \in 1..(Len(f) - Len(x) + 1) :
+       /\ \A j \in 1..Len(x) : f[a + j - 1] = x[j]
+       /\ \A p \in 1..(a - 1) : (\A q \in p..(a - 1) : f[q] # 10) => f[p] \in KBlank
+       /\ LET e == a + Len(x) IN \A p \in e..Len(f) : (\A q \in e..p : f[q] # 10) => f[p] \in KBlank
 =============================================================================
